@@ -209,3 +209,135 @@ Proof. exact (proj2 tq_render_flat_all s true). Qed.
 Lemma tq_rendered_tokens s : pok QN (tq_pieces s) = true ->
   lex (TqSql.render s) = etoks QN (tq_pieces s) /\ lits (lex (TqSql.render s)) = elits QN (tq_pieces s).
 Proof. intro H. rewrite tq_render_pieces, (lex_pieces _ H). split; [reflexivity|apply lits_etoks]. Qed.
+
+(* ---------- replacing the values of a TraceQL tree replaces the value pieces and nothing else ---------- *)
+Lemma pm_cons f x r : pm f (x :: r) = map_lit f x :: pm f r.
+Proof. reflexivity. Qed.
+Lemma pm_nil f : pm f [] = [].
+Proof. reflexivity. Qed.
+Ltac pmn := repeat (rewrite ?pm_app, ?pm_cons, ?pm_nil, ?pm_pjoin); cbn [map_lit].
+
+Lemma pm_tq_bitset f : forall ss i, map (pm f) (tq_bitset ss i) = tq_bitset (map (pm f) ss) i.
+Proof.
+  induction ss as [|s ss IH]; intro i; [reflexivity|].
+  cbn [tq_bitset map]. rewrite IH. f_equal. pmn. reflexivity.
+Qed.
+Lemma pm_tq_bitset8 f : forall ss i, map (pm f) (tq_bitset8 ss i) = tq_bitset8 (map (pm f) ss) i.
+Proof.
+  induction ss as [|s ss IH]; intro i; [reflexivity|].
+  cbn [tq_bitset8 map]. rewrite IH. f_equal. pmn. reflexivity.
+Qed.
+
+Lemma map_agree2 {A} f (g : A -> rtext) (h : A -> A) l :
+  Forall (fun x => g (h x) = pm f (g x)) l -> map g (map h l) = map (pm f) (map g l).
+Proof. induction 1 as [|x l Hx _ IH]; [reflexivity|]. cbn [map]. now rewrite Hx, IH. Qed.
+
+Section TqSubst.
+  Variable f : string -> string.
+  Definition tq_agree2 (e : expr) : Prop := tq_pexpr (tq_subst f e) = pm f (tq_pexpr e).
+  Definition tq_agree2_sel (s : select) : Prop := forall top, tq_psel top (tq_subst_sel f s) = pm f (tq_psel top s).
+
+  Lemma tq_popt_map kw x : TPopt tq_agree2 x ->
+    tq_popt tq_pexpr kw (map_opt (tq_subst f) x) = pm f (tq_popt tq_pexpr kw x).
+  Proof. destruct x as [e|]; intro H; [|reflexivity]. cbn [map_opt tq_popt]. rewrite H. reflexivity. Qed.
+
+  Lemma tq_plist_map kw l : Forall tq_agree2 l ->
+    tq_plist tq_pexpr kw (map (tq_subst f) l) = pm f (tq_plist tq_pexpr kw l).
+  Proof.
+    intro H. destruct l as [|e l]; [reflexivity|]. unfold tq_plist.
+    change (map (tq_subst f) (e :: l)) with (tq_subst f e :: map (tq_subst f) l) at 1. cbv iota.
+    change (tq_subst f e :: map (tq_subst f) l) with (map (tq_subst f) (e :: l)).
+    rewrite (map_agree2 f tq_pexpr (tq_subst f) _ H). pmn. reflexivity.
+  Qed.
+
+  Lemma tq_subst_pieces_all : (forall e, tq_agree2 e) /\ (forall s, tq_agree2_sel s).
+  Proof.
+    assert (HS : forall withs d cols from joins pw wh hv gb ob lim,
+      Forall (fun w => tq_agree2_sel (snd w)) withs -> Forall tq_agree2 cols -> TPopt tq_agree2 from -> Forall (TPjoin tq_agree2) joins ->
+      TPopt tq_agree2 pw -> TPopt tq_agree2 wh -> TPopt tq_agree2 hv -> Forall tq_agree2 gb -> Forall tq_agree2 ob -> TPopt tq_agree2 lim ->
+      tq_agree2_sel (Sel withs d cols from joins pw wh hv gb ob lim)).
+    { intros withs d cols from joins pw wh hv gb ob lim Hw Hc Hf Hj Hpw Hwh Hhv Hgb Hob Hlim top.
+      cbn [tq_subst_sel tq_psel].
+      rewrite (tq_popt_map " PREWHERE " _ Hpw), (tq_popt_map " WHERE " _ Hwh), (tq_popt_map " HAVING " _ Hhv),
+              (tq_popt_map " LIMIT " _ Hlim), (tq_plist_map " GROUP BY " _ Hgb), (tq_plist_map " ORDER BY " _ Hob).
+      rewrite (map_agree2 f tq_pexpr (tq_subst f) _ Hc).
+      rewrite (pm_app f _ (RTxt " SELECT " :: _)). rewrite !pm_cons. cbn [map_lit]. rewrite !pm_app, pm_pjoin.
+      f_equal; [|f_equal; f_equal; f_equal; f_equal].
+      - destruct top; [|reflexivity]. destruct withs as [|w0 ws]; [reflexivity|].
+        change (map (fun w => (fst w, tq_subst_sel f (snd w))) (w0 :: ws))
+          with ((fst w0, tq_subst_sel f (snd w0)) :: map (fun w => (fst w, tq_subst_sel f (snd w))) ws) at 1. cbv iota.
+        change ((fst w0, tq_subst_sel f (snd w0)) :: map (fun w => (fst w, tq_subst_sel f (snd w))) ws)
+          with (map (fun w => (fst w, tq_subst_sel f (snd w))) (w0 :: ws)).
+        rewrite pm_cons, pm_pjoin. cbn [map_lit]. f_equal. f_equal. rewrite !map_map.
+        clear - Hw. induction Hw as [|w l Hq _ IH]; [reflexivity|].
+        cbn [map]. rewrite IH. f_equal. cbn [fst snd]. rewrite (Hq false). pmn. reflexivity.
+      - destruct from as [e|]; [|reflexivity]. cbn in Hf. cbn [map_opt]. rewrite Hf. pmn. f_equal. f_equal.
+        clear - Hj. induction Hj as [|[[k t] on] l [Ht Hon] _ IH]; [reflexivity|].
+        cbn [map List.concat fst snd] in *. rewrite IH, pm_app. f_equal. rewrite Ht. pmn.
+        destruct on as [c|]; [cbn in Hon; cbn [map_opt]; rewrite Hon; pmn; reflexivity|reflexivity]. }
+    assert (HE : forall e, tq_agree2 e).
+    { apply (tq_expr_ind tq_agree2 tq_agree2_sel); try exact HS; unfold tq_agree2.
+      - reflexivity.
+      - reflexivity.
+      - reflexivity.
+      - reflexivity.
+      - reflexivity.
+      - reflexivity.
+      - reflexivity.
+      - intros fn cl H. cbn [tq_subst tq_pexpr]. rewrite pm_pjoin, !map_map. f_equal.
+        clear - H. induction H as [|x l Hx _ IH]; [reflexivity|]. cbn [map]. now rewrite IH, Hx, pm_paren.
+      - intros l r Hl Hr. cbn [tq_subst tq_pexpr]. rewrite Hl, (map_agree2 f tq_pexpr (tq_subst f) _ Hr). pmn. reflexivity.
+      - reflexivity.
+      - intros e a He. cbn [tq_subst tq_pexpr]. destruct (String.eqb a ""); [exact He|]. rewrite He. pmn. reflexivity.
+      - intros e d He. cbn [tq_subst tq_pexpr]. rewrite He. pmn. reflexivity.
+      - intros g args H. cbn [tq_subst tq_pexpr]. rewrite (map_agree2 f tq_pexpr (tq_subst f) _ H). pmn. reflexivity.
+      - intros g ps args Hp Ha. cbn [tq_subst tq_pexpr].
+        rewrite (map_agree2 f tq_pexpr (tq_subst f) _ Hp), (map_agree2 f tq_pexpr (tq_subst f) _ Ha). pmn. reflexivity.
+      - intros e He. cbn [tq_subst tq_pexpr]. rewrite He. pmn. reflexivity.
+      - intros op a b Ha Hb. cbn [tq_subst tq_pexpr]. rewrite Ha, Hb. pmn. reflexivity.
+      - intros a b Ha Hb. cbn [tq_subst tq_pexpr]. rewrite Ha, Hb. pmn. reflexivity.
+      - intros l H. cbn [tq_subst tq_pexpr]. rewrite (map_agree2 f tq_pexpr (tq_subst f) _ H). pmn. reflexivity.
+      - intros x b Hb. cbn [tq_subst tq_pexpr]. rewrite Hb. pmn. reflexivity.
+      - intros l H. cbn [tq_subst tq_pexpr]. rewrite (map_agree2 f tq_pexpr (tq_subst f) _ H), pm_pjoin, pm_tq_bitset. reflexivity.
+      - intros l H. cbn [tq_subst tq_pexpr]. rewrite (map_agree2 f tq_pexpr (tq_subst f) _ H), pm_pjoin, pm_tq_bitset8. reflexivity.
+      - intros l r Hl Hr. cbn [tq_subst tq_pexpr]. rewrite Hl, Hr. pmn. reflexivity.
+      - intros e a He. cbn [tq_subst tq_pexpr]. rewrite He. destruct (String.eqb a ""); pmn; reflexivity.
+      - intros fl re Hf. cbn [tq_subst tq_pexpr]. rewrite Hf. pmn. reflexivity.
+      - reflexivity.
+      - intros l H. cbn [tq_subst tq_pexpr].
+        rewrite (map_agree2 f (tq_psel true) (tq_subst_sel f) l); [pmn; reflexivity|].
+        clear - H. induction H as [|x l Hx _ IH]; constructor; [exact (Hx true)|exact IH].
+      - intros l H. cbn [tq_subst tq_pexpr].
+        rewrite (map_agree2 f (tq_psel true) (tq_subst_sel f) l); [pmn; reflexivity|].
+        clear - H. induction H as [|x l Hx _ IH]; constructor; [exact (Hx true)|exact IH]. }
+    split; [exact HE|].
+    exact (tq_sel_ind tq_agree2 tq_agree2_sel
+      (fun s => HE (Id s)) (fun s => HE (Raw s)) (fun s => HE (NumLit s)) (fun s => HE (RawStr s)) (fun s => HE (StrV s))
+      (fun z => HE (IntV z)) (fun s => HE (FloatV s)) (fun fn cl _ => HE (LOp fn cl)) (fun l r _ _ => HE (InE l r))
+      (fun a => HE (WRef a)) (fun e a _ => HE (Col e a)) (fun e d _ => HE (Ord e d)) (fun g args _ => HE (Fn g args))
+      (fun g ps args _ _ => HE (PFn g ps args)) (fun e _ => HE (Distinct e)) (fun op a b _ _ => HE (Bin op a b))
+      (fun a b _ _ => HE (EqBare a b)) (fun l _ => HE (Tuple l)) (fun x b _ => HE (Lambda x b)) (fun l _ => HE (BitSet l))
+      (fun l _ => HE (BitSet8 l)) (fun l r _ _ => HE (BitAnd l r)) (fun e a _ => HE (GroupBitOr e a))
+      (fun fl re _ => HE (MatchRe fl re)) (fun a => HE (AttrValue a)) (fun l _ => HE (Intersect l)) (fun l _ => HE (Union l)) HS).
+  Qed.
+
+  Lemma tq_pieces_subst s : tq_pieces (tq_subst_sel f s) = pm f (tq_pieces s).
+  Proof. exact (proj2 tq_subst_pieces_all s true). Qed.
+
+  (* for ALL replacements of the values of a TraceQL tree the statement keeps its token skeleton, has exactly one literal per
+     value piece, and those literals decode to the new values *)
+  Lemma tq_values_keep_structure s : pok QN (tq_pieces s) = true ->
+    pok QN (tq_pieces (tq_subst_sel f s)) = true /\
+    skeleton (lex (TqSql.render (tq_subst_sel f s))) = skeleton (lex (TqSql.render s)) /\
+    lex (TqSql.render (tq_subst_sel f s)) = etoks QN (pm f (tq_pieces s)) /\
+    lits (lex (TqSql.render (tq_subst_sel f s))) = elits QN (pm f (tq_pieces s)) /\
+    rvalues (pm f (tq_pieces s)) = map f (rvalues (tq_pieces s)).
+  Proof.
+    intro Hok. rewrite !tq_render_pieces, tq_pieces_subst.
+    assert (Hq : forallb (all_chars plain_char) (rqids (pm f (tq_pieces s))) = true)
+      by (rewrite rqids_pm; exact (pok_plain_qids _ QN Hok)).
+    destruct (same_shape_same_skeleton _ (pm f (tq_pieces s)) (eq_sym (shape_pm f (tq_pieces s))) Hq Hok) as [Hok' Hsk].
+    split; [exact Hok'|]. split; [exact Hsk|]. rewrite (lex_pieces _ Hok').
+    split; [reflexivity|]. split; [apply lits_etoks|apply rvalues_pm].
+  Qed.
+End TqSubst.
